@@ -59,7 +59,7 @@ func (its *MongoCollections) GetOperations(
 		AddFilterEQ(schema.OperationDocFields.DUID, duid).
 		AddFilterGTE(schema.OperationDocFields.Sseq, from)
 	if to != constants.InfinitySseq {
-		f.AddFilterLTE(schema.OperationDocFields.Sseq, to)
+		f = f.AddFilterLTE(schema.OperationDocFields.Sseq, to)
 	}
 	opt := options.Find()
 
